@@ -221,6 +221,9 @@ COMMENT_FORMS = [
     "let a = select//glued\n (x, 1) => {a = 1};", "let a = func//glued\n (x) => x;", "let a = module//glued\n {} => {};", "let a = map//glued\n (f, l);",
     "let a = fail//glued\n \"x\";", "let a = TRACE//glued\n 1;", "out//glued\n json 1;", "let a = convert//glued\n json 1;", "constraint//glued\n c = 1;",
     "let a = x is//glued\n \"str\";", "let a = include//glued\n str \"f\";", "let a = filter//glued\n (f, l);", "let a = reduce//glued\n (f, 0, l);",
+    "let a = 1;\n// g1\n\n// g2\n", "let a = 1;\n// g1\n\n\n// g2 l1\n// g2 l2\n\n// g3\n", "// only\n\n// comments\n\n\n// here\n",
+    "let a = [\n  1,\n  // commented out tail\n];\n\n// footer\n", "let a = {\n  x = 1,\n  // tail\n};\n// f1\n\n// f2\n", "let a = 1;\n  // indented g1\n// g2\n",
+    "// header\n\nlet a = 1;\n\n// mid\n\nlet b = 2;\n\n// t1\n\n// t2\n\n// t3",
     "// é unicode ü\nlet a = 1;", "//\ttab\nlet a = 1;", "// trailing spaces   \nlet a = 1;", "/// three slashes\nlet a = 1;", "// a // b\nlet a = 1;",
 ]
 
@@ -258,8 +261,14 @@ def task(args):
                     p1 = gen.Printer()
                     p1.stmt(s)
                     lines.append(gen.join_canonical(p1.toks))
-                if r.random() < 0.3:
-                    lines.append("// trailing " + r.choice(gen.COMMENT_POOL))
+                if r.random() < 0.45:
+                    # one to three comment groups after the last statement, separated by blank lines or indentation
+                    for g in range(r.randint(1, 3)):
+                        if g and r.random() < 0.8:
+                            lines += [""] * r.randint(1, 3)
+                        ind = r.choice(["", "", "  ", "\t"])
+                        for _ in range(r.randint(1, 3)):
+                            lines.append(ind + "// trailing " + r.choice(gen.COMMENT_POOL))
                 judge(probe, "\n".join(lines) + "\n", res, "gen-own-line-comments", own_line_comments=True)
                 if c < 1 and idx < 2:
                     res.sample({"text": text[:400]})
